@@ -23,7 +23,7 @@ from harness import core
 from harness import lib_c04 as lib
 from harness.core import to_dec
 
-VARIANTS_REJECTED = ['modes_elements', 'shomate_S', 'chemkin_Hact', 'shomate_native']
+VARIANTS_REJECTED = ['modes_elements', 'shomate_S', 'chemkin_Hact', 'shomate_native', 'cv_permass']
 VARIANTS_ACCEPTED = ['nasa_Cp']
 OPT_NAMES = ['P', 'x', 'S_elements', 'use_references', 'verbose', 'include_ZPE', 'rev', 'act', 'del_m']
 
@@ -94,75 +94,121 @@ def _shape_kind(cell, kind):
 # --------------------------------------------------------------------------
 # one cell instance
 # --------------------------------------------------------------------------
-def execute(job):
-    """Run one cell on one concrete object.  Returns (events, mismatches, info)."""
+def _sig(fn):
+    """parameter names of a bound method, '**' for **kwargs"""
+    out = []
+    for name, p in inspect.signature(fn).parameters.items():
+        out.append('**' if p.kind == p.VAR_KEYWORD else name)
+    return sorted(out)
+
+
+def _t_list(T):
     import numpy as np
+    return [float(t) for t in np.atleast_1d(np.asarray(T, dtype=float))]
+
+
+def _block(obj, cell, vals, units, comp, events, mism, block):
+    """twin line + one dim line per unit for one object at one set of values"""
     from pmutt import constants as c
-    cell = job['cell']
-    rnd = random.Random(job['seed'])
-    obj, comp, trange = lib.build(cell, rnd)
-    vals = lib.option_values(cell, rnd, trange)
-    mism, events = [], []
     getter, twin = cell['getter'], cell['twin']
-    # ---- S->C: the API surface TLC described exists
-    if not hasattr(obj, getter) or not hasattr(obj, twin):
-        mism.append({'what': 'missing method', 'getter': getter, 'twin': twin})
-        return events, mism, {'nontrivial': [], 'effective': {}, 'twin_raised': False}
-    if not _accepts(obj, getter, cell['kwD']):
-        mism.append({'what': 'dimensional getter does not accept the keyword set', 'kwD': cell['kwD']})
-    if not _accepts(obj, twin, cell['kwT']):
-        mism.append({'what': 'twin does not accept the keyword set', 'kwT': cell['kwT']})
-    if cell['ismode']:
-        params = [p for p in inspect.signature(getattr(obj, twin)).parameters]
-        if sorted(params) != cell['sig']:
-            mism.append({'what': 'signature of the mode twin', 'expected': cell['sig'], 'got': sorted(params)})
     kwT = _kwargs(cell['kwT'], vals, cell['dflt'])
     kwD = _kwargs(cell['kwD'], vals, [])
     t_used = vals['T'] if cell['tgiven'] else lib.DEFAULT_SYMBOLS['T0']
-    tlist = [float(t) for t in np.atleast_1d(t_used)]
+    tlist = _t_list(t_used)
     aw = {e: to_dec(c.atomic_weight[e]) for e in ('H', 'N', 'O')}
     t_ok, t_kind, xor, t_exc = _call(obj, twin, kwT)
-    events.append({'ev': 'twin', 'cls': cell['cls'], 'form': cell['form'], 'q': cell['q'],
+    events.append({'ev': 'twin', 'block': block, 'cls': cell['cls'], 'form': cell['form'], 'q': cell['q'],
                    'energy': cell['energy'], 'shape': cell['rshape'], 'T': _dec_list(tlist),
-                   'ok': t_ok, 'XoR': _dec_list(xor), 'comp': comp, 'aw': aw})
-    if t_ok and _shape_kind(cell, t_kind) != cell['rshape']:
-        mism.append({'what': 'twin result shape', 'expected': cell['rshape'], 'got': t_kind})
-    nontrivial = []
-    first = None
-    for u in job['units']:
+                   'ok': t_ok, 'XoR': _dec_list(xor), 'comp': {e: to_dec(float(n)) for e, n in comp.items()},
+                   'aw': aw})
+    loose = len(tlist) == 1 and cell['shape'] == 'array'
+    if cell['cls'] == 'SingleNasa9':
+        loose = True                       # scalar T gives a (1,) vector for Cp, a float for S
+    if t_ok and not loose and _shape_kind(cell, t_kind) != cell['rshape']:
+        mism.append({'what': 'twin result shape', 'block': block, 'expected': cell['rshape'], 'got': t_kind})
+    nontrivial, okpairs, first = [], 0, None
+    for u in units:
         d_ok, d_kind, x, d_exc = _call(obj, getter, dict(kwD, units=u['ustr']))
         try:
             r_val, r_ok = c.R(u['rkey']), True
         except Exception:
             r_val, r_ok = 0.0, False
         events.append({'ev': 'dim', 'e': u['e'], 'per': u['per'], 'ustr': u['ustr'], 'ok': d_ok,
-                       'exc': d_exc.split(':')[0], 'X': _dec_list(x), 'R': to_dec(r_val), 'Rok': r_ok})
+                       'exc': d_exc.split(':')[0], 'X': _dec_list(x), 'R': to_dec(r_val), 'Rok': r_ok,
+                       'Tnow': _dec_list(_t_list(t_used))})
         if t_ok and d_ok:
-            if _shape_kind(cell, d_kind) != cell['rshape']:
-                mism.append({'what': 'dimensional result shape', 'unit': u['ustr'],
-                             'expected': cell['rshape'], 'got': d_kind})
+            okpairs += 1
+            # (one temperature in an array: scalar or length-1 vector, the values are judged by TLC)
+            if not loose and (d_kind != t_kind or _shape_kind(cell, d_kind) != cell['rshape']):
+                mism.append({'what': 'dimensional result shape', 'block': block, 'unit': u['ustr'],
+                             'expected': cell['rshape'], 'twin': t_kind, 'got': d_kind})
             if any(v != 0.0 for v in xor):
                 nontrivial.append(u['ustr'])
             if first is None:
                 first = (u, x)
+    return t_ok, t_exc, xor, first, nontrivial, okpairs, tlist
+
+
+def execute(job):
+    """Run one cell on concrete objects.  Returns (events, mismatches, info)."""
+    cell = job['cell']
+    rnd = random.Random(job['seed'])
+    var = job['var']
+    obj, comp, trange, ident = lib.build(cell, rnd, var['comp'])
+    vals = lib.option_values(cell, rnd, trange, var['ttype'], var['pvar'], var['xvar'],
+                             descriptors=(ident[1] if ident else None))
+    mism, events = [], []
+    getter, twin = cell['getter'], cell['twin']
+    info = {'nontrivial': [], 'effective': {}, 'twin_raised': False, 'okpairs': 0, 'sibling': 0, 'repeat': 0}
+    # ---- S->C: the API surface TLC described exists
+    if not hasattr(obj, getter) or not hasattr(obj, twin):
+        mism.append({'what': 'missing method', 'getter': getter, 'twin': twin})
+        return events, mism, info
+    if not _accepts(obj, getter, cell['kwD']):
+        mism.append({'what': 'dimensional getter does not accept the keyword set', 'kwD': cell['kwD']})
+    if not _accepts(obj, twin, cell['kwT']):
+        mism.append({'what': 'twin does not accept the keyword set', 'kwT': cell['kwT']})
+    if not cell['isrxn']:
+        got = _sig(getattr(obj, twin))
+        if ('**' in cell['sig']) != ('**' in got) or ('**' not in cell['sig'] and got != cell['sig']):
+            mism.append({'what': 'signature of the dimensionless twin', 'expected': cell['sig'], 'got': got})
+    # ---- block A: the cell itself
+    t_ok, t_exc, xor, first, nontrivial, okpairs, tlist = _block(obj, cell, vals, job['units'], comp,
+                                                                 events, mism, 'A')
+    info.update({'nontrivial': nontrivial, 'okpairs': okpairs, 'twin_raised': not t_ok, 'twin_exc': t_exc,
+                 'T': tlist})
     # ---- focus lines: both calls again without one option
-    effective = {}
     if t_ok and first is not None:
         u, x = first
         for opt, base in sorted(job['base'].items()):
-            kwT0 = _kwargs(base['kwT'], vals, base['dflt'])
-            kwD0 = _kwargs(base['kwD'], vals, [])
+            vals0 = dict(vals)
+            for o in base['atdefault']:
+                vals0[o] = lib.DEFAULT_VALUES[o]
+            kwT0 = _kwargs(base['kwT'], vals0, base['dflt'])
+            kwD0 = _kwargs(base['kwD'], vals0, [])
             t0_ok, _, xor0, _ = _call(obj, twin, kwT0)
             d0_ok, _, x0, _ = _call(obj, getter, dict(kwD0, units=u['ustr']))
             events.append({'ev': 'focus', 'opt': opt, 'e': u['e'], 'per': u['per'], 'ok': True,
                            'ok0': d0_ok, 'okT0': t0_ok, 'X': _dec_list(x), 'X0': _dec_list(x0),
                            'XoR0': _dec_list(xor0)})
             if t0_ok:
-                effective[opt] = (xor0 != xor)
-    info = {'nontrivial': nontrivial, 'effective': effective, 'twin_raised': not t_ok,
-            'twin_exc': t_exc, 'T': tlist,
-            'values': {k: (v if isinstance(v, (int, float, str, bool, type(None))) else [float(t) for t in v])
-                       for k, v in vals.items() if k in cell['kwT'] or k in cell['kwD']}}
+                info['effective'][opt] = (xor0 != xor)
+    # ---- block B: a second species of the same name and element symbols, other stoichiometry,
+    #      asked in the per-mass units right after the first one
+    if ident is not None and cell['mass']:
+        obj2, comp2, _, _ = lib.build(cell, rnd, var['comp'], sibling_of=ident)
+        ub = [u for u in job['units'] if u['per'] in ('g', 'kg')] + \
+             [u for u in job['units'] if u['per'] not in ('g', 'kg')][:2]
+        r = _block(obj2, cell, vals, ub, comp2, events, mism, 'B')
+        info['sibling'] = r[5]
+    # ---- block C: the first object again, at another temperature
+    vals2 = dict(vals)
+    vals2['T'] = lib.draw_T(cell['shape'], var['ttype'] if var['ttype'] != 'T0' else 'float', rnd,
+                            *lib.T_RANGE[trange])
+    r = _block(obj, cell, vals2, job['units'][:(1 if cell['isrxn'] else 2)], comp, events, mism, 'C')
+    info['repeat'] = r[5]
+    info['values'] = {k: (v if isinstance(v, (int, float, str, bool, type(None))) else repr(v))
+                      for k, v in vals.items() if k in cell['kwT'] or k in cell['kwD']}
     return events, mism, info
 
 
@@ -173,7 +219,7 @@ def _safe_execute(job):
         raise
     except Exception as ex:          # building the object failed: the library raised on a valid configuration
         return [], [{'what': 'raised outside a getter', 'raised': '%s: %s' % (type(ex).__name__, ex)}], \
-               {'nontrivial': [], 'effective': {}, 'twin_raised': False}
+               {'nontrivial': [], 'effective': {}, 'twin_raised': False, 'okpairs': 0, 'sibling': 0, 'repeat': 0}
 
 
 # --------------------------------------------------------------------------
@@ -181,7 +227,7 @@ def _safe_execute(job):
 # --------------------------------------------------------------------------
 def _cell_key(c, opts=None):
     return (c['cls'], c['form'], c['q'], c['state'], tuple(sorted(c['opts'] if opts is None else opts)),
-            c['shape'], c['tgiven'], c['phase'], c['own'])
+            c['expl'], c['shape'], c['tgiven'], c['phase'], c['own'], c['species'])
 
 
 def _unit_list(units, cell):
@@ -189,50 +235,61 @@ def _unit_list(units, cell):
     return units[key]
 
 
-def _pick_units(ulist, rnd, n_molar, n_mass, must):
-    forced = [u for u in ulist if u['ustr'] in must]
-    if len(forced) != len(must):
-        raise core.MachineryError('unit strings %r that TLC demands are not in the unit list' % (must,))
-    molar = [u for u in ulist if u['per'] in ('mol', 'molecule') and u['ustr'] not in must]
-    mass = [u for u in ulist if u['per'] in ('g', 'kg')]
-    rnd.shuffle(molar)
-    rnd.shuffle(mass)
-    pick = forced + molar[:n_molar - len(forced)] + mass[:n_mass]
-    rnd.shuffle(pick)
-    return pick
-
-
 def make_jobs(ctx, data):
+    """Every cell becomes a job.  Thorough: every cell is asked in every unit string.  Quick: the
+    cells of one (class, getter) share the unit list between them so that the group asks every
+    unit string in every run (a cell gets at least 6, a group of one cell gets all)."""
     cells = data['cells']
     for c in cells:
-        for k in ('opts', 'kwD', 'kwT', 'relevant', 'sig', 'must'):
+        for k in ('opts', 'kwD', 'kwT', 'relevant', 'sig', 'must', 'atdefault'):
             c[k] = sorted(c[k])
     index = {_cell_key(c): c for c in cells}
     cells.sort(key=_cell_key)
+    groups = {}
+    for c in cells:
+        groups.setdefault((c['cls'], c['getter']), []).append(c)
     jobs = []
-    draws = ctx.pick(1, 4)
-    for ci, c in enumerate(cells):
-        base = {}
-        for o in c['opts']:
-            if o == 'verbose':
-                continue                      # changes the shape: no element-wise baseline
-            b = index.get(_cell_key(c, [p for p in c['opts'] if p != o]))
-            if b is None:
-                raise core.MachineryError('case space not closed under removing option %s: %r' % (o, c))
-            base[o] = {'kwD': b['kwD'], 'kwT': b['kwT'], 'dflt': b['dflt']}
-        ulist = _unit_list(data['units'], c)
-        if len(ulist) != c['nunits']:
-            raise core.MachineryError('unit list of cell %r has %d entries, TLC counted %d'
-                                      % (c, len(ulist), c['nunits']))
-        for d in range(draws):
-            seed = zlib.crc32(('%d|%d|%d' % (ctx.seed, ci, d)).encode())
-            rnd = random.Random(seed)
-            if ctx.quick:
-                us = _pick_units(list(ulist), rnd, 6, 4, c['must'])
-            else:
-                us = list(ulist)
-                rnd.shuffle(us)
-            jobs.append({'cell': c, 'units': us, 'base': base, 'seed': seed})
+    draws = ctx.pick(1, 2)
+    ci = 0
+    for gkey in sorted(groups):
+        gcells = groups[gkey]
+        for gi, c in enumerate(gcells):
+            base = {}
+            for o in c['opts']:
+                if o == 'verbose':
+                    continue                      # changes the shape: no element-wise baseline
+                b = index.get(_cell_key(c, [p for p in c['opts'] if p != o]))
+                if b is None:
+                    raise core.MachineryError('case space not closed under removing option %s: %r' % (o, c))
+                base[o] = {'kwD': b['kwD'], 'kwT': b['kwT'], 'dflt': b['dflt'], 'atdefault': b['atdefault']}
+            ulist = _unit_list(data['units'], c)
+            if len(ulist) != c['nunits']:
+                raise core.MachineryError('unit list of cell %r has %d entries, TLC counted %d'
+                                          % (c, len(ulist), c['nunits']))
+            for d in range(draws):
+                seed = zlib.crc32(('%d|%d|%d' % (ctx.seed, ci, d)).encode())
+                rnd = random.Random(seed)
+                order = sorted(ulist, key=lambda u: u['ustr'])
+                random.Random(zlib.crc32(('%d|%s|%d' % (ctx.seed, gkey, d)).encode())).shuffle(order)
+                if ctx.quick:
+                    n, nu = len(gcells), len(order)
+                    stride = -(-nu // n)
+                    k = min(nu, max(6, stride + 1))
+                    us = [order[(gi * stride + j) % nu] for j in range(k)]
+                    have = {u['ustr'] for u in us}
+                    us += [u for u in order if u['ustr'] in c['must'] and u['ustr'] not in have]
+                else:
+                    us = list(order)
+                if not set(c['must']) <= {u['ustr'] for u in us}:
+                    raise core.MachineryError('unit strings %r that TLC demands are not asked' % (c['must'],))
+                rot = ci + ctx.seed + d
+                ttypes = lib.ARRAY_T_TYPES if c['shape'] == 'array' else lib.SCALAR_T_TYPES
+                var = {'ttype': ttypes[rot % len(ttypes)],
+                       'pvar': lib.P_VARIANTS[(rot // 5) % len(lib.P_VARIANTS)],
+                       'xvar': lib.X_VARIANTS[(rot // 3) % len(lib.X_VARIANTS)],
+                       'comp': lib.COMP_VARIANTS[(rot // 2) % len(lib.COMP_VARIANTS)]}
+                jobs.append({'cell': c, 'units': us, 'base': base, 'seed': seed, 'var': var})
+            ci += 1
     return jobs
 
 
@@ -240,7 +297,7 @@ def _tags(cell, exc=''):
     t = {'cls': cell['cls'], 'kind': ('mode' if cell['ismode'] else cell['cls']),
          'form': cell['form'], 'q': cell['q'], 'getter': cell['getter'],
          'opts': ','.join(cell['opts']), 'shape': cell['shape'], 'phase': cell['phase'],
-         'own': cell['own']}
+         'own': cell['own'], 'expl': cell['expl'], 'species': cell['species']}
     for o in ('rev', 'P', 'x'):
         t['has_' + o] = o in cell['opts']
     if exc:
@@ -250,17 +307,22 @@ def _tags(cell, exc=''):
 
 def run(ctx):
     ctx.coverage['rule'] = (
-        'cells = every applicable (class, form, quantity, state, option subset, T shape, T given/defaulted) '
-        'emitted by TLC from UnitsWrap.tla, each with the dimensionless twin and the keyword sets of both calls; '
-        'every cell is instantiated with a random object (seeded) carrying the features the options need and is '
-        'asked in unit strings from TLC\'s list (quick: 6 molar/per-molecule + 4 per-mass per cell, always including '
-        'the unit a Shomate polynomial is stored in; thorough: all, '
-        '4 objects per cell); non-trivial: the twin returned a non-zero value; distinct by (cell, unit string)')
+        'cells = every applicable (class, form, quantity, state, option subset, explicit-defaults flag, T shape, '
+        'T given/defaulted, phase, own unit, species kind of a reaction) emitted by TLC from UnitsWrap.tla, each with '
+        'the dimensionless twin and the keyword sets of both calls; every cell is instantiated with random objects '
+        '(seeded) carrying the features the options need; quick: the cells of one (class, getter) share TLC\'s unit '
+        'list so that every (class, getter) is asked in EVERY unit string in every run (>= 6 per cell, always the '
+        'unit a Shomate polynomial is stored in; Shomate fitting units: 4 of 16 rotating with the seed); thorough: '
+        'every cell in every unit string, 2 objects per cell, all 16 fitting units; the type/container of T, the '
+        'values of P and x and the way the composition is written rotate over the cells; non-trivial: the twin '
+        'returned a non-zero value; distinct by (cell, unit string)')
     if ctx.replay_case is not None:
         jobs = [ctx.replay_case['case']]
     else:
         # (D) required wrapper: exhaustive, and emits the cells
-        data, r = core.tlc_cases('MC_UnitsWrap', 'MC_UnitsWrap')
+        own_rot = 'all' if not ctx.quick else str(ctx.seed % 4)
+        ctx.coverage['shomate_own_rotation'] = own_rot
+        data, r = core.tlc_cases('MC_UnitsWrap', 'MC_UnitsWrap', env={'OWN_ROT': own_rot})
         ctx.count('states', r.distinct)
         ctx.count('transitions', r.states)
         ctx.coverage.setdefault('models', []).append(
@@ -270,8 +332,8 @@ def run(ctx):
         if not r.ok:
             raise core.MachineryError('UnitsWrap design model failed:\n' + r.out[-3000:])
         # (D) wrappers of the pinned tree: three must be rejected, the harmless one accepted
-        with cf.ThreadPoolExecutor(max_workers=5) as ex:
-            futs = {v: ex.submit(core.run_tlc, 'MC_UnitsWrap', 'MC_UnitsWrap_' + v, None, 4)
+        with cf.ThreadPoolExecutor(max_workers=6) as ex:
+            futs = {v: ex.submit(core.run_tlc, 'MC_UnitsWrap', 'MC_UnitsWrap_' + v, {'OWN_ROT': own_rot}, 2)
                     for v in VARIANTS_REJECTED + VARIANTS_ACCEPTED}
         for v, f in futs.items():
             rv = f.result()
@@ -291,6 +353,12 @@ def run(ctx):
     traces = []
     eff = {o: [0, 0] for o in OPT_NAMES}
     twin_raised = 0
+    vac = {}                                   # vacuity counters: class of input -> ok (twin, dim) pairs
+
+    def bump(kind, key, n):
+        vac.setdefault(kind, {})
+        vac[kind][key] = vac[kind].get(key, 0) + n
+    asked = {}
     for tid, (job, (events, mism, info)) in enumerate(zip(jobs, results)):
         cell = job['cell']
         ctx.evaluated(max(1, len(job['units'])))
@@ -305,6 +373,38 @@ def run(ctx):
             twin_raised += 1
             ctx.notes.append('twin raised: %s %s opts=%s: %s' % (cell['cls'], cell['twin'], cell['opts'],
                                                                info.get('twin_exc'))) if twin_raised <= 5 else None
+        n = info['okpairs']
+        bump('class', cell['cls'], n)
+        bump('class_getter', cell['cls'] + '.' + cell['getter'], n)
+        bump('T_type', job['var']['ttype'], n)
+        bump('shape', cell['rshape'], n)
+        bump('explicit_default', ','.join(cell['atdefault']) and 'some', n) if cell['expl'] else None
+        for o in cell['atdefault']:
+            bump('explicit_default_of', o, n)
+        if cell['isrxn']:
+            bump('reaction_species', cell['cls'] + '/' + cell['species'], n)
+            if cell['shape'] == 'array':
+                bump('reaction_array_T', cell['cls'], n)
+        if 'P' in cell['kwD'] and 'P' in cell['opts']:
+            bump('P_value', job['var']['pvar'], n)
+        if 'x' in cell['opts']:
+            bump('x_value', job['var']['xvar'], n)
+        if cell['mass']:
+            bump('composition_written_as', job['var']['comp'], n)
+            bump('same_name_other_stoichiometry', cell['cls'], info['sibling'])
+            for u in job['units']:
+                if u['per'] in ('g', 'kg'):
+                    bump('per_mass', cell['cls'] + '/' + u['per'], 1 if n else 0)
+        if cell['phase'] != 'none':
+            bump('phase', cell['cls'] + '/' + cell['phase'], n)
+        if cell['own'] != 'none':
+            bump('shomate_own_unit', cell['own'], n)
+        if not cell['tgiven']:
+            bump('T_defaulted', cell['cls'], n)
+        bump('second_use_of_object', cell['cls'], info['repeat'])
+        if n:
+            asked.setdefault((cell['cls'], cell['getter'], cell['mass'], cell['energy']), set()).update(
+                u['ustr'] for u in job['units'])
         traces.append((tid, events))
         if tid % 997 == 0:
             ctx.sample({'cell': {k: cell[k] for k in ('cls', 'getter', 'twin', 'kwD', 'kwT', 'dflt', 'shape')},
@@ -318,6 +418,34 @@ def run(ctx):
         dead = [o for o in OPT_NAMES if o != 'verbose' and eff[o][1] == 0]
         if dead:
             raise core.MachineryError('vacuous: option(s) %s never changed a dimensionless value' % dead)
+        # every class of input named by the quantifier was exercised (zero => exit 2)
+        want = {'class': sorted({j['cell']['cls'] for j in jobs}),
+                'class_getter': sorted({j['cell']['cls'] + '.' + j['cell']['getter'] for j in jobs}),
+                'T_type': lib.SCALAR_T_TYPES + lib.ARRAY_T_TYPES, 'shape': ['scalar', 'array', 'verbose'],
+                'explicit_default_of': OPT_NAMES,
+                'reaction_species': ['Reaction/StatMech', 'Reaction/Nasa', 'SurfaceReaction/StatMech',
+                                     'SurfaceReaction/Nasa', 'ChemkinReaction/Nasa'],
+                'reaction_array_T': ['Reaction', 'ChemkinReaction', 'SurfaceReaction'],
+                'P_value': lib.P_VARIANTS, 'x_value': lib.X_VARIANTS,
+                'composition_written_as': lib.COMP_VARIANTS,
+                'same_name_other_stoichiometry': ['StatMech', 'Nasa', 'Nasa9', 'Shomate', 'Reference'],
+                'per_mass': [c + '/' + m for c in ('StatMech', 'Nasa', 'Nasa9', 'Shomate', 'Reference')
+                             for m in ('g', 'kg')],
+                'phase': [c + '/' + ph for c in ('Nasa', 'Nasa9', 'Shomate') for ph in ('gas', 'condensed')],
+                'T_defaulted': ['StatMech', 'Nasa', 'Reaction', 'SurfaceReaction', 'HarmonicVib', 'Reference'],
+                'second_use_of_object': sorted({j['cell']['cls'] for j in jobs})}
+        empty = [(k, v) for k, vs in want.items() for v in vs if not vac.get(k, {}).get(v)]
+        if empty:
+            raise core.MachineryError('vacuous: no successful call pair for %r' % (empty[:12],))
+        if len(vac.get('shomate_own_unit', {})) < (4 if ctx.quick else 16):
+            raise core.MachineryError('vacuous: Shomate fitting units exercised: %r' % (vac.get('shomate_own_unit'),))
+        # every (class, getter) was asked in every unit string of TLC's list
+        for (cls, getter, mass, energy), got in sorted(asked.items()):
+            full = {u['ustr'] for u in data['units'][('mass' if mass else 'molar') + ('_energy' if energy else '_perK')]}
+            if got != full:
+                raise core.MachineryError('vacuous: %s.%s was not asked in %r' % (cls, getter, sorted(full - got)))
+        ctx.coverage['unit_strings_per_class_getter'] = 'all (%d groups)' % len(asked)
+    ctx.coverage['vacuity_counters'] = {k: dict(sorted(v.items())) for k, v in vac.items() if k != 'class_getter'}
     fails, stats = core.validate_traces('Trace_UnitsWrap', 'Trace', traces, shards=ctx.pick(8, 16))
     ctx.count('traces_validated_against_impl', len(traces))
     ctx.coverage['trace_lines'] = stats['lines']
@@ -327,6 +455,7 @@ def run(ctx):
         if clause in ('UnknownUnit', 'UnknownEvent', 'CaseBinding', 'UnitString'):
             raise core.MachineryError('trace spec rejected the harness itself: %s on %r' % (clause, ev))
         tags = _tags(job['cell'], ev.get('exc', ''))
+        tags['permass'] = ev.get('per') in ('g', 'kg')
         if ev['ev'] == 'focus':
             tags['opt'] = ev['opt']
         ctx.violation(clause, job, tags=tags,
